@@ -21,12 +21,15 @@ SendEv == {"Send", "SendL", "SendM", "SendNow", "SendNowBig", "SendNow1", "SendN
 \* delivery and waits for room in the channel) and is then frozen; while it is frozen the session engine processes a grant of the receiver
 \* (ParkF) or a settlement of the oldest delivery still unsettled (ParkD); then the frozen send is dropped.  No generous grant follows: the
 \* sends of the suffix live on the credit granted while the send was parked.
+\* part "win": the peer's session window holds one frame, so that the transfers of a send wait in the session (all of them handed over, the send
+\* waiting for its outcome) when the application drops it; then the peer reopens the window
+WinEv == {"Send", "SendL", "Cancel", "WinOpen", "Win1", "Disp", "Yield"}
 ParkEv == {"SB", "ParkF", "ParkD", "ParkM", "Disp", "Yield"}
 Cnt(sc, S) == Len(SelectSeq(sc, LAMBDA e : e \in S))
 VARIABLES script, half
 Init == script = <<>> /\ half = FALSE
 Next == /\ Len(script) < Depth
-        /\ \E e \in (IF Part = "recv" THEN RecvEv ELSE IF Part = "mix" THEN MixEv ELSE IF Part = "park" THEN ParkEv ELSE SendEv) :
+        /\ \E e \in (IF Part = "recv" THEN RecvEv ELSE IF Part = "mix" THEN MixEv ELSE IF Part = "park" THEN ParkEv ELSE IF Part = "win" THEN WinEv ELSE SendEv) :
              /\ (e = "T2b" => half) /\ (e \in {"T1", "T2a"} => ~half)
              /\ (Part = "park" /\ e \in {"Disp", "ParkD"} => Cnt(script, {"Disp", "ParkD"}) < Cnt(script, {"SB", "ParkF", "ParkD", "ParkM"}))
              /\ script' = Append(script, e) /\ half' = (IF e = "T2a" THEN TRUE ELSE IF e = "T2b" THEN FALSE ELSE half)
@@ -98,10 +101,31 @@ PBody(sc, i, m, d) == IF i > Len(sc) THEN <<>> ELSE LET e == sc[i] IN
 PSuffix == << [e |-> "ASend", l |-> "L1", m |-> 90, len |-> 20, batchable |-> TRUE], [e |-> "ASend", l |-> "L1", m |-> 91, len |-> 400, batchable |-> TRUE],
               [e |-> "PFrame", perf |-> "disposition", ch |-> 3, ech |-> 0, f |-> [role |-> "r", first |-> [d |-> 0], last |-> [d |-> "last"], settled |-> TRUE, state |-> [k |-> "accepted", cond |-> "", txn |-> <<>>]]] >>
            \o [i \in 1..(Depth + 2) |-> [e |-> "AAwaitOutcome", nth |-> i - 1]]
+WinFlow(w) == [e |-> "PFrame", perf |-> "flow", ch |-> 3, ech |-> 0, f |-> [nii |-> [seen |-> 0], iw |-> w, noi |-> 0, ow |-> 100]]
+WinPrefix == << [e |-> "AOpen", cfg |-> [mfs |-> 512, buf |-> Buf, pipe |-> Pipe]], [e |-> "PHeader", kind |-> "amqp"],
+                [e |-> "PFrame", perf |-> "open", ch |-> 0, f |-> [mfs |-> 512, chmax |-> 10]],
+                [e |-> "ABegin", s |-> "s1", cfg |-> [noi |-> 1000, iw |-> 1000, ow |-> 100, buf |-> Buf]],
+                [e |-> "PFrame", perf |-> "begin", ch |-> 3, f |-> [rch |-> [ref |-> "s1"], noi |-> 0, iw |-> 1, ow |-> 100]],
+                [e |-> "AAttachS", l |-> "L1", s |-> "s1", cfg |-> [snd |-> 2, rcv |-> 0, idc |-> 0]],
+                [e |-> "PFrame", perf |-> "attach", ch |-> 3, f |-> [name |-> "L1", h |-> 5, role |-> "r", snd |-> 2, rcv |-> 0, mms |-> 150]],
+                [e |-> "PFrame", perf |-> "flow", ch |-> 3, ech |-> 0, f |-> [nii |-> [seen |-> 0], iw |-> 1, noi |-> 0, ow |-> 100, h |-> 5, dc |-> 0, lc |-> 50]],
+                \* one delivery uses the window up and is settled
+                [e |-> "ASend", l |-> "L1", m |-> 1, len |-> 20], DispOne(0, FALSE) >>
+RECURSIVE WBody(_, _, _, _)
+WBody(sc, i, m, d) == IF i > Len(sc) THEN <<>> ELSE LET e == sc[i] IN
+  CASE e = "Send" -> <<[e |-> "ASend", l |-> "L1", m |-> m, len |-> 20]>> \o WBody(sc, i + 1, m + 1, d)
+    [] e = "SendL" -> <<[e |-> "ASend", l |-> "L1", m |-> m, len |-> 400]>> \o WBody(sc, i + 1, m + 1, d)
+    [] e = "Cancel" -> <<[e |-> "ACancel", l |-> "L1"]>> \o WBody(sc, i + 1, m, d)
+    [] e = "WinOpen" -> <<WinFlow(20)>> \o WBody(sc, i + 1, m, d)
+    [] e = "Win1" -> <<WinFlow(1)>> \o WBody(sc, i + 1, m, d)
+    [] e = "Disp" -> <<DispOne(d, FALSE)>> \o WBody(sc, i + 1, m, d + 1)
+    [] OTHER -> <<[e |-> "Yield", n |-> 5]>> \o WBody(sc, i + 1, m, d)
+WSuffix == << [e |-> "ACancel", l |-> "L1"], WinFlow(50), [e |-> "ASend", l |-> "L1", m |-> 90, len |-> 400, settled |-> TRUE], [e |-> "ASend", l |-> "L1", m |-> 91, len |-> 20, settled |-> TRUE] >>
 SSuffix == << [e |-> "ACancel", l |-> "L1"], Grant(20), [e |-> "ASend", l |-> "L1", m |-> 90, len |-> 400, settled |-> TRUE], [e |-> "ASend", l |-> "L1", m |-> 91, len |-> 20, settled |-> TRUE] >>
 Done == Len(script) = Depth
 Emit == Done => PrintT(<<"SCRIPT", ToJson([side |-> "client", id |-> <<Part, AutoAccept, Pipe, Buf>> \o script, final_ms |-> 5000,
                            ev |-> IF Part = "recv" THEN RecvPrefix \o RBody(script, 1, 0) \o RSuffix
                                   ELSE IF Part = "mix" THEN MixPrefix \o MBody(script, 1, 0, 1) \o MSuffix
-                                  ELSE IF Part = "park" THEN SendPrefix \o <<Grant(3)>> \o PBody(script, 1, 1, 0) \o PSuffix ELSE SendPrefix \o SBody(script, 1, 1, 0) \o SSuffix])>>)
+                                  ELSE IF Part = "park" THEN SendPrefix \o <<Grant(3)>> \o PBody(script, 1, 1, 0) \o PSuffix
+                                  ELSE IF Part = "win" THEN WinPrefix \o WBody(script, 1, 2, 1) \o WSuffix ELSE SendPrefix \o SBody(script, 1, 1, 0) \o SSuffix])>>)
 =============================================================================
